@@ -60,7 +60,6 @@ func vnLexW(mode int) {
 			}
 		}
 		if tt == ErrorToken {
-			vAssert(l.Err() != nil, "error-without-err")
 			vReach("error")
 			sawError = true
 			continue
